@@ -58,6 +58,11 @@ type Write struct {
 	Via  string `json:"via"`            // tokens | copy | encode
 	NS   string `json:"ns,omitempty"`   // name space given to the written iq: "" or the stream's
 	Text string `json:"text,omitempty"` // informational: the element as the program builds it
+	// XMLNS: the start tag carries an explicit xmlns attribute (the stream's
+	// namespace) in that position among its attributes: "" | first | middle |
+	// last.  With Via "decode" the element is written as text and read back with
+	// xml.Decoder, whose start tokens carry the xmlns attribute where it stood.
+	XMLNS string `json:"xmlns,omitempty"`
 	// Abandon > 0: only the first Abandon tokens of the element are written (it
 	// is left open in mid-element); only on the last write of a program.
 	Abandon int `json:"abandon,omitempty"`
@@ -69,6 +74,13 @@ type Program struct {
 	Writes     []Write `json:"writes"`
 	ReadAfter  int     `json:"read_after"`
 	Ret        string  `json:"ret"` // nil | err | streamerr | stanzaerr | stanzaerr-wrapped | eof
+}
+
+// AppSend is one transmission by the application.
+type AppSend struct {
+	At      int    `json:"at"`
+	Via     string `json:"via"`     // Send | SendElement | SendIQ
+	Payload string `json:"payload"` // balanced | unbalanced-eof (the reader ends with an element open) | reader-error (the reader fails in mid-element)
 }
 
 // Collision describes an "id collision" case: while one of our own requests
@@ -90,6 +102,10 @@ type Scenario struct {
 	Mode     string    `json:"mode"`         // bare | mux-reg | mux-unreg | serve-nil (Serve(nil): the programs are not used)
 	Input    []string  `json:"input"`        // raw top-level elements (and white space) sent by the peer
 	Programs []Program `json:"programs"`
+	// AppSends: the application transmits elements of its own while the stream
+	// is served (synchronously at the start of the given invocation, when the
+	// serve loop does not hold the output lock; At < 0: before Serve starts).
+	AppSends []AppSend `json:"app_sends,omitempty"`
 	// Collision, when set, turns the case into the concurrent id-collision
 	// scenario (Input and Programs then describe the colliding request and the
 	// sentinel).
@@ -387,6 +403,10 @@ func genProgram(r *rand.Rand, streamNS string) Program {
 		if r.Intn(2) == 0 {
 			w.NS = streamNS
 		}
+		if r.Intn(6) == 0 {
+			w.XMLNS = pick(r, "first", "middle", "last")
+			w.Via = pick(r, "tokens", "copy", "decode")
+		}
 		p.Writes = append(p.Writes, w)
 	}
 	if len(p.Writes) > 0 && r.Intn(10) == 0 {
@@ -466,6 +486,15 @@ func gen(r *rand.Rand) Scenario {
 		sc.Input = append(sc.Input, raw)
 		sc.Programs = append(sc.Programs, genProgram(r, o.NS()))
 	}
+	if r.Intn(10) == 0 {
+		for i, m := 0, 1+r.Intn(2); i < m; i++ {
+			sc.AppSends = append(sc.AppSends, AppSend{
+				At:      r.Intn(n+1) - 1,
+				Via:     pick(r, "Send", "SendElement", "SendIQ"),
+				Payload: pick(r, "unbalanced-eof", "unbalanced-eof", "reader-error", "balanced"),
+			})
+		}
+	}
 	if sc.WS {
 		// the peer's close frame ends the input (on this tree it is dispatched
 		// like an element: it gets a program that does nothing)
@@ -542,6 +571,7 @@ type runState struct {
 	byKey    bool   // collision cases: elements are recognised by (id, type), not by order
 	invoked  []bool // per element: the serve loop handed it to the handler
 	extra    int    // byKey: invocations for elements that are not in exp
+	appSent  []appSent
 	input    string
 }
 
@@ -630,6 +660,159 @@ func (st *runState) build(w Write, reqID, reqFrom string, marker string) (toks [
 	panic("unknown write kind " + w.Kind)
 }
 
+// withXMLNS puts an explicit xmlns attribute on the start tag of the element
+// and, for Via "decode", replaces the tokens by what xml.Decoder yields for
+// the element's text.
+func (st *runState) withXMLNS(toks []xml.Token, w Write) []xml.Token {
+	if w.XMLNS == "" && w.Via != "decode" {
+		return toks
+	}
+	se, ok := toks[0].(xml.StartElement)
+	if !ok || se.Name.Local != "iq" || (se.Name.Space != "" && se.Name.Space != st.o.NS()) {
+		return toks
+	}
+	if w.XMLNS != "" {
+		x := xml.Attr{Name: xml.Name{Local: "xmlns"}, Value: st.o.NS()}
+		at := append([]xml.Attr(nil), se.Attr...)
+		switch w.XMLNS {
+		case "first":
+			at = append([]xml.Attr{x}, at...)
+		case "middle":
+			k := len(at) / 2
+			at = append(at[:k:k], append([]xml.Attr{x}, at[k:]...)...)
+		default:
+			at = append(at, x)
+		}
+		se.Attr = at
+		toks = append([]xml.Token{se}, toks[1:]...)
+	}
+	if w.Via != "decode" {
+		return toks
+	}
+	// text of the element, attributes in the chosen order, read back
+	var sb strings.Builder
+	depth := 0
+	for _, t := range toks {
+		switch x := t.(type) {
+		case xml.StartElement:
+			sb.WriteString("<" + x.Name.Local)
+			declared := false
+			for _, a := range x.Attr {
+				if a.Name.Local == "xmlns" {
+					declared = true
+				}
+				sb.WriteString(" " + a.Name.Local + "='" + esc(a.Value) + "'")
+			}
+			if !declared && (x.Name.Space != "" || depth == 0) {
+				ns := x.Name.Space
+				if ns == "" {
+					ns = st.o.NS()
+				}
+				sb.WriteString(" xmlns='" + ns + "'")
+			}
+			sb.WriteString(">")
+			depth++
+		case xml.EndElement:
+			sb.WriteString("</" + x.Name.Local + ">")
+			depth--
+		case xml.CharData:
+			sb.WriteString(esc(string(x)))
+		}
+	}
+	d := xml.NewDecoder(strings.NewReader(sb.String()))
+	var out []xml.Token
+	for {
+		t, err := d.Token()
+		if err != nil {
+			break
+		}
+		out = append(out, xml.CopyToken(t))
+	}
+	if len(out) == 0 {
+		return toks
+	}
+	return out
+}
+
+var errAppReader = errors.New("c07: application payload reader failed")
+
+type appReader struct {
+	t   []xml.Token
+	err error // returned when the tokens are used up (nil: io.EOF)
+}
+
+func (a *appReader) Token() (xml.Token, error) {
+	if len(a.t) == 0 {
+		if a.err != nil {
+			return nil, a.err
+		}
+		return nil, io.EOF
+	}
+	t := a.t[0]
+	a.t = a.t[1:]
+	return t, nil
+}
+
+// appSends performs the application's transmissions scheduled for invocation at.
+func (st *runState) appSends(s *xmpp.Session, at int) {
+	for k, as := range st.sc.AppSends {
+		if as.At != at {
+			continue
+		}
+		hw := xml.Attr{Name: xml.Name{Local: "hw"}, Value: fmt.Sprintf("app%d", k)}
+		to := xml.Attr{Name: xml.Name{Local: "to"}, Value: st.o.Remote}
+		start := xml.StartElement{Name: xml.Name{Local: "message"}, Attr: []xml.Attr{to, hw}}
+		if as.Via == "SendIQ" {
+			start = xml.StartElement{Name: xml.Name{Local: "iq"}, Attr: []xml.Attr{{Name: xml.Name{Local: "type"}, Value: "result"}, {Name: xml.Name{Local: "id"}, Value: fmt.Sprintf("app%d", k)}, to, hw}}
+		}
+		body := xml.StartElement{Name: xml.Name{Local: "body"}}
+		payload := []xml.Token{body, xml.CharData("from the application")}
+		var rerr error
+		switch as.Payload {
+		case "balanced":
+			payload = append(payload, body.End())
+		case "reader-error":
+			rerr = errAppReader
+		}
+		var err error
+		ctx := context.Background()
+		switch as.Via {
+		case "SendElement":
+			err = s.SendElement(ctx, &appReader{t: payload, err: rerr}, start)
+		case "SendIQ":
+			all := append([]xml.Token{start}, payload...)
+			if as.Payload == "balanced" {
+				all = append(all, start.End())
+			}
+			_, err = s.SendIQ(ctx, &appReader{t: all, err: rerr})
+		default:
+			all := append([]xml.Token{start}, payload...)
+			if as.Payload == "balanced" {
+				all = append(all, start.End())
+			}
+			err = s.Send(ctx, &appReader{t: all, err: rerr})
+		}
+		st.appSent = append(st.appSent, appSent{at: at, payload: as.Payload, err: err})
+	}
+}
+
+type appSent struct {
+	at      int
+	payload string
+	err     error
+}
+
+// brokenSendBefore reports whether the application made an unbalanced or
+// failing transmission before element i was handled.
+func (st *runState) brokenSendBefore(i int) bool {
+	for _, a := range st.appSent {
+		if a.at <= i && a.payload != "balanced" {
+			return true
+		}
+	}
+	return false
+}
+
 type sliceReader struct{ t []xml.Token }
 
 func (s *sliceReader) Token() (xml.Token, error) {
@@ -673,6 +856,7 @@ func (st *runState) exec(rw xmlstream.TokenReadEncoder) error {
 	for _, w := range p.Writes {
 		m := st.marker()
 		toks, reply, ambig := st.build(w, reqID, reqFrom, m)
+		toks = st.withXMLNS(toks, w)
 		rec := writeRec{Marker: m, Kind: w.Kind, Stanza: idx, Reply: reply && reqID != "", Ambig: ambig}
 		switch w.Via {
 		case "copy":
@@ -903,6 +1087,9 @@ func build(c *core.Case, sc Scenario) (p *sess.Pair, st *runState, outer xmpp.Ha
 		inner = m
 	}
 	outer = xmpp.HandlerFunc(func(rw xmlstream.TokenReadEncoder, start *xml.StartElement) error {
+		if !st.byKey {
+			st.appSends(p.S, st.cur+1)
+		}
 		if st.byKey {
 			for i, n := range st.exp {
 				if start.Name == n.Name && attrOf(start, "id") == n.Attr("id") && attrOf(start, "type") == n.Attr("type") {
@@ -966,6 +1153,7 @@ func Run(c *core.Case, sc Scenario) {
 	}
 	input := st.input
 
+	st.appSends(p.S, -1)
 	p.Send(input)
 	if !sc.WS {
 		p.ClosePeer()
@@ -1179,6 +1367,9 @@ func judge(c *core.Case, sc Scenario, o sess.Opts, st *runState, written []byte,
 		switch {
 		case cl.Constrained:
 			c.Count("requests_with_id", 1)
+			if st.brokenSendBefore(i) {
+				c.Count("request_after_unbalanced_app_send", 1)
+			}
 			if exempt {
 				c.Count("requests_exempt_stream_ended_with_error", 1)
 				continue
@@ -1195,6 +1386,8 @@ func judge(c *core.Case, sc Scenario, o sess.Opts, st *runState, written []byte,
 			}
 			cause := func() string {
 				switch {
+				case st.brokenSendBefore(i):
+					return "after-unbalanced-app-send"
 				case hIntended > 0:
 					return "handler-reply-lost"
 				case abandonedNonReply:
@@ -1330,6 +1523,25 @@ func judge(c *core.Case, sc Scenario, o sess.Opts, st *runState, written []byte,
 		}
 	}
 	c.Count("handler_elements_written", len(st.writes))
+	for _, a := range st.appSent {
+		c.Count("app_sends", 1)
+		c.Count("app_send_"+a.payload, 1)
+		if a.err != nil {
+			c.Count("app_send_returned_error", 1)
+		}
+	}
+	for i, p := range sc.Programs {
+		if i < len(st.rets) && st.rets[i] != "" {
+			for _, w := range p.Writes {
+				if w.XMLNS != "" && (w.Kind == "result" || w.Kind == "error" || w.Kind == "result-payload") {
+					c.Count("handler_reply_with_xmlns_attr_"+w.XMLNS, 1)
+				}
+				if w.Via == "decode" {
+					c.Count("handler_element_from_xml_decoder", 1)
+				}
+			}
+		}
+	}
 	for _, w := range st.writes {
 		if w.Err == nil && (w.Kind == "reply-noid" || w.Kind == "reply-emptyid") && classes[w.Stanza].Constrained {
 			c.Count("handler_wrote_reply_without_id_to_request", 1)
@@ -1515,6 +1727,8 @@ func Prop() *core.Prop {
 			"collision_cases", "collision_barrier_reached", "collision_own_request_on_wire", "collision_request_reached_handler", "collision_requester_got_response",
 			"collision_via_SendIQ", "collision_via_SendIQElement", "collision_via_UnmarshalIQ", "collision_via_SendMessage", "collision_via_SendPresence",
 			"session_websocket", "ws_answered_by_library", "mode_serve-nil", "serve_nil_answered_by_library",
+			"handler_reply_with_xmlns_attr_first", "handler_reply_with_xmlns_attr_middle", "handler_reply_with_xmlns_attr_last", "handler_element_from_xml_decoder",
+			"app_sends", "app_send_unbalanced-eof", "app_send_reader-error", "app_send_balanced", "request_after_unbalanced_app_send",
 			"handler_wrote_reply_without_id_to_request", "handler_wrote_reply-noid_bare", "handler_wrote_reply-noid_mux", "handler_wrote_reply-emptyid_bare", "handler_wrote_reply-emptyid_mux",
 			"handler_abandoned_reply", "handler_abandoned_other_element", "answered_by_handler_after_an_abandoned_element",
 			"incoming_qualified_attr_own_ns", "incoming_qualified_attr_foreign_ns",
